@@ -230,6 +230,13 @@ func optCommands() []optCmd {
 			[]optFlag{{"-o", "outdir"}, {"-a", "name"}, {"-d", "enum"}, {"-t", "str"}}},
 		{"import", []string{"import", "-i", "spec.yaml", "-a", "Imp", "-p", "pkg", "-f", "openapi3", "-o", "out/i.sysl"},
 			[]optFlag{{"-i", "infile"}, {"-a", "name"}, {"-p", "str"}, {"-f", "enum"}, {"-o", "outfile"}}},
+		// the other importers that run without arr.ai (fast); for them a directory is a legitimate kind of input
+		{"import", []string{"import", "-i", "spec2.yaml", "-a", "Imp", "-p", "pkg", "-f", "swagger", "-o", "out/i.sysl"},
+			[]optFlag{{"-i", "inpath"}, {"-a", "name"}, {"-p", "str"}, {"-o", "outfile"}}},
+		{"import", []string{"import", "-i", "spec.xsd", "-a", "Imp", "-p", "pkg", "-f", "xsd", "-o", "out/i.sysl"},
+			[]optFlag{{"-i", "inpath"}, {"-a", "name"}, {"-p", "str"}, {"-o", "outfile"}}},
+		{"import", []string{"import", "-i", "spec.sql", "-a", "Imp", "-p", "pkg", "-f", "postgres", "-o", "out/i.sysl"},
+			[]optFlag{{"-i", "inpath"}, {"-a", "name"}, {"-f", "enum"}, {"-o", "outfile"}}},
 		{"template", []string{"template", "--root-template", ".", "--template", "tmpl.sysl", "--start", "start", "--app-name", "Shop", "--outdir", "out/", "m.sysl"},
 			[]optFlag{{"--root-template", "outdir"}, {"--template", "infile"}, {"--start", "name"}, {"--app-name", "name"}, {"--outdir", "outdir"}}},
 		{"codegen", []string{"codegen", "--root-transform", ".", "--transform", "tf.sysl", "--grammar", "tf.g", "--start", "javaFile", "--app-name", "Shop", "--outdir", "out/", "--dep-path", "d", "--basepath", "b", "m.sysl"},
@@ -246,6 +253,7 @@ var optValues = map[string][]string{
 	"enum":    {"", "nosuchvalue"},
 	"pattern": {"", "NoSuch", ".*", "^All$", "a|b"}, // valid regular expressions only
 	"infile":  {"", "nosuch.file", "adir", "/dev/null"},
+	"inpath":  {"", "nosuch.file", "adir", "/dev/null"},
 	"outfile": {"", "missingdir/sub/out.x", "adir", "/proc/nosuch/out.x", "/dev/full"},
 	"outdir":  {"", "missingdir/sub", "m.sysl", "/proc/nosuch/sub"},
 	"name":    {"", "NoSuch", "Shop <- ", " <- Order", "<-", "Shop <- Order <- Order", strings.Repeat("N", 3000), "Ünï", "Shop,NoSuch", "Shop <- Order=", "="},
@@ -257,6 +265,8 @@ func mustFail(kind, val string) bool {
 	switch kind {
 	case "infile":
 		return val != "/dev/null"
+	case "inpath":
+		return val == "" || val == "nosuch.file"
 	case "int":
 		return val == "abc"
 	}
@@ -265,7 +275,10 @@ func mustFail(kind, val string) bool {
 
 func optionRuns(rng *common.Rng, all bool) []*Run {
 	files := map[string]string{"m.sysl": optModel, "adir/keep.txt": "x",
-		"spec.yaml": "openapi: \"3.0.0\"\ninfo:\n  title: T\n  version: \"1\"\npaths: {}\ncomponents:\n  schemas:\n    A:\n      type: object\n      properties:\n        id:\n          type: integer\n"}
+		"spec2.yaml": "swagger: \"2.0\"\ninfo:\n  title: T\n  version: \"1\"\npaths: {}\ndefinitions:\n  A:\n    type: object\n    properties:\n      id:\n        type: integer\n",
+		"spec.xsd":   "<?xml version=\"1.0\"?>\n<xs:schema xmlns:xs=\"http://www.w3.org/2001/XMLSchema\"><xs:complexType name=\"A\"><xs:sequence><xs:element name=\"n\" type=\"xs:int\"/></xs:sequence></xs:complexType></xs:schema>\n",
+		"spec.sql":   "CREATE TABLE a (id int primary key);\n",
+		"spec.yaml":  "openapi: \"3.0.0\"\ninfo:\n  title: T\n  version: \"1\"\npaths: {}\ncomponents:\n  schemas:\n    A:\n      type: object\n      properties:\n        id:\n          type: integer\n"}
 	for n, c := range extraFiles(&SModel{Apps: []SApp{{Name: "Shop"}, {Name: "Store"}}}) {
 		files[n] = c
 	}
